@@ -282,6 +282,21 @@ def fn_programs() -> list:
     add("fn_signature_aba", {"scale": DEF(["v", "k"], [RETURN(BIN("*", V("v"), V("k")))]), "mix": DEF(["a", "b", "c"], [RETURN(BIN("+", BIN("*", V("a"), V("b")), V("c")))])},
         [WRITE(CALL("scale", I(2), F(0.5))), WRITE(CALL("scale", F(2.5), I(2))), WRITE(CALL("scale", I(2), F(0.5))), WRITE(CALL("scale", I(3), I(2))), WRITE(CALL("scale", F(2.5), I(2))),
          WRITE(CALL("mix", I(1), F(0.5), I(2))), WRITE(CALL("mix", F(0.5), I(1), I(2))), WRITE(CALL("mix", I(1), I(2), F(0.5))), WRITE(CALL("mix", I(1), F(0.5), I(2))), WRITE(CALL("mix", F(0.5), I(1), I(2)))])
+    # a string variable bound to a constant, re-bound where a transpile-time environment does not follow (a branch, a loop body,
+    # later in the main loop body, at file scope between two calls of a helper), then spliced into an f-string
+    add("fn_fstr_label_rebound", {"show": DEF([], [WRITE(FSTR("[", V("mode"), "]"))])},
+        [ASSIGN("mode", S("idle")), EXPR(CALL("show")), ASSIGN("mode", S("run")), EXPR(CALL("show")),
+         ASSIGN("lbl", S("lo")), IF([(CMP(AREAD(), (">", I(0))), [ASSIGN("lbl", S("hi"))])]), WRITE(FSTR("", V("lbl"), "!")),
+         ASSIGN("tag", S("a")), FOR("fi", I(2), [AUG("tag", "+", S("b"))]), WRITE(FSTR("<", V("tag"), ">")),
+         ASSIGN("st", S("one"))],
+        loop=[WRITE(FSTR("st=", V("st"))), ASSIGN("st", S("two")), EXPR(CALL("show")), ASSIGN("mode", S("loop"))], ain=[1], npass=3)
+    # min / max whose operands have effects: each operand once, left to right
+    add("fn_minmax_operand_order", {"pa": DEF([], [WRITE(S("a")), AUG("acc", "+", I(1)), ASSIGN("acc", BIN("*", V("acc"), I(10))), RETURN(I(3))], ["acc"]),
+                                    "pb": DEF([], [WRITE(S("b")), AUG("acc", "+", I(2)), ASSIGN("acc", BIN("*", V("acc"), I(10))), RETURN(I(5))], ["acc"])},
+        [ASSIGN("acc", I(0)), WRITE(CALL("max", CALL("pa"), CALL("pb"))), WRITE(V("acc")), WRITE(CALL("min", CALL("pb"), CALL("pa"))), WRITE(V("acc"))])
+    # recursion whose recursive call changes the call signature twice (int,int) -> (float,int) -> (float,float)
+    add("fn_recursive_signature_shift", {"halve": DEF(["v", "prev"], [IF([(CMP(V("v"), ("<", I(1))), [RETURN(V("prev"))])]), RETURN(CALL("halve", BIN("/", V("v"), I(2)), V("v")))])},
+        [WRITE(CALL("halve", I(3), I(0))), ASSIGN("hq", CALL("halve", I(2), I(0))), WRITE(V("hq")), WRITE(CALL("halve", AREAD(), I(0)))], ain=[3])
     # annotated parameters: Python does not enforce annotations - the value the call site passes is the value the parameter holds
     add("fn_annotated_param", {"scale": DEF(["raw", "k"], [RETURN(BIN("*", V("raw"), V("k")))], ann={"raw": "int"}),
                                "lbl": DEF(["t", "n"], [RETURN(FSTR("", V("t"), ":", V("n")))], ann={"t": "str", "n": "float"})},
